@@ -123,7 +123,25 @@ func c20(e *Env) {
 	case 3: // consistency names
 		u := c20Consistencies[idx%11]
 		o := c20Consistencies[(idx/11)%11]
-		cc.opts["unsupported-write-consistencies"] = caseVariant(u.name, idx/121)
+		// the level under test sits somewhere in a list of one to four levels, in any order
+		names := []string{caseVariant(u.name, idx/121)}
+		for k := c.Choose("c20listlen", 4); k > 0; k-- {
+			x := c20Consistencies[c.Choose("c20listother", 11)]
+			dup := x.name == o.name // (a list that names the override level itself is asking for trouble)
+			for _, n := range names {
+				if strings.EqualFold(n, x.name) {
+					dup = true
+				}
+			}
+			if !dup {
+				names = append(names, x.name)
+			}
+		}
+		for i := len(names) - 1; i > 0; i-- {
+			j := c.Choose("c20listorder", i+1)
+			names[i], names[j] = names[j], names[i]
+		}
+		cc.opts["unsupported-write-consistencies"] = strings.Join(names, ",")
 		cc.opts["unsupported-write-consistency-override"] = caseVariant(o.name, idx/121+1)
 		cc.unsup, cc.override, cc.checkCL = u.cl, o.cl, true
 		cc.desc = fmt.Sprintf("unsupported-write-consistencies=%s override=%s", cc.opts["unsupported-write-consistencies"], cc.opts["unsupported-write-consistency-override"])
